@@ -2,4 +2,7 @@ let () =
   match Sys.argv.(1) with
   | "diff" -> D_diff.run ()
   | "config" -> D_config.run ()
+  | "exec" -> D_exec.run ()
+  | "cli" -> D_cli.run ()
+  | "validate" -> D_exec.run_validate ()
   | x -> prerr_endline ("unknown " ^ x); exit 2
